@@ -158,7 +158,7 @@ def bounds(tier):
 
 def units(tier):
     n = len(_progs(tier))
-    return [("prog", tier, i, min(n, i + BATCH)) for i in range(0, n, BATCH)] + [("values", tier, i, 0) for i in range(8)] + [("harv", tier, i, i + HV_STEP) for i in range(0, 920, HV_STEP)]
+    return [("prog", tier, i, min(n, i + BATCH)) for i in range(0, n, BATCH)] + [("values", tier, i, 0) for i in range(8)] + [("harv", tier, i, i + HV_STEP) for i in range(0, 920, HV_STEP)] + ([("hang", tier, 0, 0)] if tier == "thorough" else [])
 
 
 class _Timeout(Exception):
@@ -414,9 +414,45 @@ def _harv(res, tier, lo, hi):
         res.sample({"harvested_program": H[lo][0], "variants": len(harvest_variants(H[lo][1]))})
 
 
+HANG_PROGS = ["def run(x: int):\n    return 9 ** 9 ** 9\n", "def run(x: int):\n    return 2 ** 2 ** 40\n", "def run(x: int):\n    return 10 ** 10 ** 10 % 7\n"]
+HANG_SCRIPT = r'''
+import sys
+sys.path.insert(0, sys.argv[1])
+from pa.run import check
+print("DONE", len(check(sys.argv[2])))
+'''
+
+
+def _hang(res, only=None):
+    """constant folding of astronomically large powers: run in a subprocess that is killed after 20 s (the big-integer operation cannot be interrupted from Python)"""
+    import os
+    import subprocess
+    import sys
+    root = os.path.dirname(os.path.dirname(os.path.abspath(__file__)))
+    for i, src in enumerate(HANG_PROGS):
+        if only is not None and src != only:
+            continue
+        res.states += 1
+        res.transitions += 1
+        res.validated += 1
+        env = dict(os.environ, PYTHONPATH=root)
+        try:
+            p = subprocess.run([sys.executable, "-c", HANG_SCRIPT, root, src], env=env, stdout=subprocess.PIPE, stderr=subprocess.PIPE, text=True, timeout=20)
+            status = "finishes" if "DONE" in p.stdout else "fails"
+        except subprocess.TimeoutExpired:
+            status = "killed-after-20s"
+        res.outcomes["hang:%s" % status] += 1
+        if status != "finishes":
+            res.violation({"kind": "does-not-terminate", "family": "huge-power", "status": status}, {"mode": "hang", "src": src, "order": 4 * 10 ** 8 + i},
+                          "check() does not finish within 20 s on (the module imports instantly, CPython does not fold this constant):\n%s" % src)
+
+
 def run_unit(unit):
     kind, tier, lo, hi = unit
     res = UnitResult()
+    if kind == "hang":
+        _hang(res)
+        return res
     if kind == "harv":
         _harv(res, tier, lo, hi)
         return res
@@ -429,6 +465,9 @@ def run_unit(unit):
 
 def replay(case):
     res = UnitResult()
+    if case["mode"] == "hang":
+        _hang(res, only=case["src"])
+        return list(res.viol.values())
     if case["mode"] == "prog":
         status, info = _check_batch(res, [case["src"]], case["cfg"], case.get("order", 0), "quick", harvested=bool(case.get("harvested")))
         if status == "raised":
